@@ -24,7 +24,8 @@ theorem tables_match_source :
     Gen.CEval.integerTypes.length = Ty.all.length ∧ (∀ τ ∈ Ty.all, τ.id ∈ Gen.CEval.integerTypes) ∧
     (∀ τ ∈ Ty.all, τ.id ∉ Gen.CEval.floatTypes) ∧
     Gen.CEval.unsignedVariants = (Ty.all.filter Ty.isSigned).map (fun τ => (τ.id, τ.unsignedVariant.id)) ∧
-    Gen.CEval.typeNames = Spec.CInt.Ty.all.map (fun τ => (τ.name, (ofSpecTy τ).id)) := by
+    Gen.CEval.typeNames = Spec.CInt.Ty.all.map (fun τ => (τ.name, (ofSpecTy τ).id)) ∧
+    Gen.CEval.sizeType = sizeT.id := by
   decide +kernel
 
 end Props.C27
